@@ -30,12 +30,17 @@ Definition dListC {A} (p : dec A) : dec (list A) :=
 Definition dJobSpecC : dec job_spec :=
   let* i := dPos in let* q := dPos in let* m := dZ in let* rm := dListC (dPair dPos dZ) in ret (mkJobSpec i q m rm).
 
+(* an item of a history: a cache operation, or (agent stream) the execution of the queued binds --
+   pre-binders, then Binder.Bind -- with the tasks whose PreBind fails *)
+Inductive item := IOp (o : cache_op) | IFlow (fails : list positive).
+Definition ops_of (l : list item) : list cache_op := omap (fun i => match i with IOp o => Some o | IFlow _ => None end) l.
+
 Record bind_case := mkBindCase {
   bc_eps : Z; bc_nodes : list node_spec; bc_jobs : list job_spec; bc_tasks : list task_spec;
-  bc_workers : Z; bc_exact : bool; bc_calls : list cache_op }.
+  bc_workers : Z; bc_exact : bool; bc_items : list item }.
 
 (* an item of the history: 0 = AddBindTask call, 1-4 = cache events delivered in between *)
-Definition dBindReq : dec cache_op :=
+Definition dBindOp : dec cache_op :=
   let* k := dZ in
   match k with
   | 0 => let* j := dPos in let* t := dPos in let* n := dPos in ret (OpBind (mkBind j t n false))
@@ -49,9 +54,17 @@ Definition dBindReq : dec cache_op :=
   | _ => fail
   end.
 
+Definition dBindReq : dec item :=
+  fun l => match l with
+           | 9 :: r => (let* f := dListC dPos in ret (IFlow f)) r
+           | _ => (let* o := dBindOp in ret (IOp o)) l
+           end.
+
 Definition dBindCase : dec bind_case :=
   let* e := dZ in let* ns := dListC dNodeSpec in let* js := dListC dJobSpecC in let* ts := dListC dTaskSpec in
   let* g := dZ in let* x := dBool in let* cs := dListC dBindReq in ret (mkBindCase e ns js ts g x cs).
+
+Definition bc_calls (b : bind_case) : list cache_op := ops_of (bc_items b).
 
 Definition cache_of (b : bind_case) : cache :=
   let s := build (bc_eps b) (bc_nodes b) (bc_jobs b) (bc_tasks b) in mkCache (heap s) (jobs s) (nodes s).
@@ -80,18 +93,31 @@ Definition run_agent (b : bind_case) : list Z :=
   (* what the informer knows of each pod: the spec's pods and the pods that arrive as events *)
   let known : gmap positive task :=
     fold_left (fun m o => match o with OpEv (EvPodAdd t) => <[t_id t := t]> m | _ => m end) (bc_calls b) (c_heap c) in
-  let step (acc : gmap positive node * list Z) (o : cache_op) :=
-    let '(ns, out) := acc in
-    match o with
-    | OpBind r =>
+  (* state: nodes, per-item codes, the accepted calls whose bind has not been executed yet, and
+     the pods handed to Binder.Bind (task, node) *)
+  let step (acc : gmap positive node * list Z * list (positive * positive) * list Z) (i : item) :=
+    let '(ns, out, pending, bound) := acc in
+    match i with
+    | IOp (OpBind r) =>
       match known !! b_task r with
-      | Some t => let '(ns', x) := agent_add_bind_task (bc_eps b) ns t (b_node r) in (ns', out ++ eBindRes (bc_exact b) x)
-      | None => (ns, out ++ [10])
+      | Some t =>
+        let '(ns', x) := agent_add_bind_task (bc_eps b) ns t (b_node r) in
+        (ns', out ++ eBindRes (bc_exact b) x,
+         match x with BOk => pending ++ [(b_task r, b_node r)] | _ => pending end, bound)
+      | None => (ns, out ++ [10], pending, bound)
       end
-    | OpEv e => (agent_event (bc_eps b) (fun i => known !! i) ns e, out ++ [9])
+    | IOp (OpEv e) => (agent_event (bc_eps b) (fun i => known !! i) ns e, out ++ [9], pending, bound)
+    | IFlow fails =>
+      (* executePreBinds: a failing PreBind resyncs the task (off the node) and the context is
+         skipped; the others are handed to Binder.Bind *)
+      let ns' := fold_left (fun ns p => if bool_decide (fst p ∈ fails)
+                                        then agent_event (bc_eps b) (fun i => known !! i) ns (EvUnbind (fst p) (snd p)) else ns) pending ns in
+      let bound' := flat_map (fun p => if bool_decide (fst p ∈ fails) then [] else [Zpos (fst p); Zpos (snd p)]) pending in
+      (ns', out ++ [9], [], bound ++ bound')
     end in
-  let '(ns', out) := fold_left step (bc_calls b) (c_nodes c, []) in
-  Z.of_nat (length (bc_calls b)) :: out ++ [-112] ++ eList (fun kv => eNode (snd kv)) (sort_kv (map_to_list ns')).
+  let '(ns', out, _, bound) := fold_left step (bc_items b) (c_nodes c, [], [], []) in
+  Z.of_nat (length (bc_items b)) :: out ++ [-112] ++ eList (fun kv => eNode (snd kv)) (sort_kv (map_to_list ns')) ++
+  [-113] ++ bound.
 
 (* ---- law 112 ----
    [held]: per node, the pods the real node holds at the end TOGETHER WITH the pods of every
@@ -162,6 +188,12 @@ Definition entry (sel : Z) (toks : list Z) : list Z :=
   | 3 => match run_dec dBindCase toks with Some b => run_agent b | None => bad_input end
   | 4 => match run_dec dEvictSpec toks with Some x => run_evict_initial x | None => bad_input end
   | 114 => match run_dec dEvictLaw toks with Some (e, ns, ts, h) => eBool (law_nodes_held e ns ts h) | None => bad_input end
+  (* 6: bind admission on pods whose request comes partly from init containers (the spec carries the
+     EFFECTIVE request computed by the upstream helper): only the admission results are compared *)
+  | 6 => match run_dec dBindCase toks with
+         | Some b => eList (fun r => match r with Some x => eBindRes (bc_exact b) x | None => [9] end)
+                           (ops_results (bc_eps b) (cache_of b) (bc_calls b))
+         | None => bad_input end
   | 115 => match run_dec dBindCase toks with Some b => eBool (cinv_b (bc_eps b) (cache_of b)) | None => bad_input end
   | 112 => match run_dec dBindLaw toks with Some (b, h) => eBool (law_bind b h) | None => bad_input end
   (* 116: law 112 again, on the held sets WITHOUT the pods a known finding explains (emitted unsigned
